@@ -180,6 +180,9 @@ func (c *Config) Prop(t *testing.T) {
 			ev.Sample("exec", xc)
 		}
 		if bad, msg := o.Failed(); bad {
+			if _, known := ev.Attributed(msg, xc.WGSL); known {
+				return
+			}
 			ev.Fail(c.Check, xc, msg)
 			t.Fatalf("%s\n%s\n---- emitted ----\n%s", msg, xc.WGSL, clip(o.Text))
 		}
